@@ -115,7 +115,7 @@ func runC15(e *Env) {
 		"values whose leading/trailing white space or trailing '/' would land at the very end of the path are excluded: path normalisation (C11) removes them by design",
 		"path variables are addressed as \"{name}\" keys, other keys are query arguments (documented calling convention)",
 	}
-	e.RunCases("roundtrip", e.N(8000, 600000), 0, c15Case)
+	e.RunCases("roundtrip", e.N(8000, 2000000), 0, c15Case)
 	e.Require("roundtrip.dynamic", 5000)
 	e.Require("roundtrip.static", 500)
 	e.Require("roundtrip.placeholder_like_value", 300)
